@@ -19,6 +19,22 @@ CHECKS = {
    text="Hypothesis search over subsets/orders of the 21 keys, strain-field classes and axis permutations with metamorphic oracles (alone vs in company, reversed order, relabelled axes, isotropic limit), dependency-order check, node budget, and a rule-based state machine over resolve/calculate histories.",
    note="Strain fractions lie on a rational grid so that tasks are either identical or well separated (the scheduler merges parameters equal to 1e-5 by design).",
    technique="Hypothesis metamorphic tests + rule-based state machine (histories)", design="4/C04"),
+ "C05": dict(
+   text="Hypothesis search over synthetic data sets and settings; the whole result (static part, strain fractions, static pressure, every isothermal/adiabatic component incl. all shear keys) is recomputed from the data-set description by an independent reference model and compared on the full (T,V) grid; metamorphic shift/scale of the static table.",
+   note="Spectra are chosen so that the configured interpolant is exact (no interpolation code in the reference); QHA's P(T,V) and C_V are observed; adaptive tolerance where the code differentiates numerically.",
+   technique="Hypothesis differential test against an end-to-end reference model + metamorphic relations", design="4/C05"),
+ "C06": dict(
+   text="Hypothesis search: every pressure-base quantity at every (T,P) is compared with an independent re-interpolation of the volume-base quantity along the isotherm (cubic spline, adaptive tolerance), analytic test fields through the public v2p, V(T,P) inversion and monotonicity, and rejection of overshooting pressure grids placed far from the boundary.",
+   note="QHA's pressure field is trusted; the reachable range is taken from the qha package run directly on the same arrays.",
+   technique="Hypothesis differential/metamorphic test (independent interpolation, analytic fields, rejection oracle)", design="4/C06"),
+ "C07": dict(
+   text="Hypothesis search over positive-definite tensor fields of all nine systems and cell masses; Voigt/Reuss/Hill, bounds, compliances and velocities are recomputed from the rank-4 tensor (Mandel inverse) with own SI constants at every positive-definite grid point.",
+   note="Reference is independent of Voigt factor conventions; PD decided by own eigvalsh; tolerance 1e-7 relative.",
+   technique="Hypothesis differential test against reference tensor algebra", design="4/C07"),
+ "C12": dict(
+   text="Hypothesis sweep of the documented configuration space (7 interpolators x admissible orders, 9 systems, T grids down to 0.5 K and denormal T_MIN, optional sampling keys present/absent, BM order 3-5) on well-formed data sets; validity predicates: completes, real dtype, finite (isothermal everywhere; adiabatic where C_V>0; derived where PD), c(T)->c(0).",
+   note="Well-formedness (monotonic pressure, requested pressures inside the range) decided with the qha package directly; open finding interpolator=hermite excluded and counted.",
+   technique="Hypothesis configuration sweep with validity predicates (crash/NaN/complex detection)", design="4/C12"),
  "C08": dict(
    text="Subspace equality Sol = W decided completely for all nine systems (every basis vector of the Laue-invariant subspace accepted unchanged, a minimal sufficient set accepted, complement vectors refused, own parse of the relation files), plus Hypothesis search over sufficient subsets around the matroid boundary and row counts.",
    note="Invariant subspaces computed from rotation generators in the standard setting (vcij/reflaue.py); nothing reads the packaged relations except the explicit white-box cross-check.",
